@@ -929,7 +929,7 @@ func TestVerif_C05_Strings(t *testing.T) {
 	os.Setenv("C05_PART", "strings")
 	r := vr.Start(t, "C05", "strings")
 	defer r.Finish()
-	r.Rule = "every byte string of length <= N (full alphabet) at: ParseBGPBody with header type 0..6 (UPDATE under 4 option sets: ADD-PATH x AS width; the other types ignore options), ParseBGPMessage with a valid header, every type octet and every body <= 2, DecodeCapability, GetPathAttribute+DecodeFromBytes (4 option sets), NLRIFromSlice for each of the 26 families; non-trivial = distinct accepted (entry, outcome, structural shape / first two input bytes) for which every rendering clause ran"
+	r.Rule = "every byte string of length <= N (full alphabet) at: ParseBGPBody with header type 0..6 (UPDATE with ADD-PATH off and on; the other types ignore options), ParseBGPMessage with a valid header, every type octet and every body <= 2, DecodeCapability, GetPathAttribute+DecodeFromBytes (4-octet and 2-octet AS), NLRIFromSlice for each of the 26 families; non-trivial = distinct accepted (entry, outcome, structural shape / first two input bytes) for which every rendering clause ran"
 	if r.ReplayPath() != "" {
 		c05Replay(t, r)
 		return
@@ -942,7 +942,8 @@ func TestVerif_C05_Strings(t *testing.T) {
 	r.Bounds["alphabet"] = 256
 	four := c05FourOpts()
 	opt0 := four[0]
-	r.Bounds["option_sets_update_and_attr"] = len(four)
+	r.Bounds["option_sets_update_body"] = "ADD-PATH off / on"
+	r.Bounds["option_sets_attribute"] = "4-octet / 2-octet AS"
 	type job struct {
 		entry string
 		o     bgpgen.OptSet
@@ -959,9 +960,21 @@ func TestVerif_C05_Strings(t *testing.T) {
 		return 3
 	}
 	var jobs []job
+	// With at most N <= 4 body bytes an UPDATE cannot reach an AS_PATH, and a bare attribute of <= 4 bytes
+	// cannot reach an MP_REACH/MP_UNREACH NLRI: the UPDATE body runs under ADD-PATH off/on (withdrawn-routes
+	// parsing), the attribute decoder under 4-octet / 2-octet AS; every other decoder ignores the options.
+	var updOpts, attrOpts []bgpgen.OptSet
+	for _, o := range four {
+		if !o.Use2ByteAS {
+			updOpts = append(updOpts, o)
+		}
+		if !o.AddPathV4 {
+			attrOpts = append(attrOpts, o)
+		}
+	}
 	for ht := 0; ht <= 6; ht++ {
 		if ht == bgp.BGP_MSG_UPDATE {
-			for i, o := range four {
+			for i, o := range updOpts {
 				jobs = append(jobs, job{c05Body, o, 0, uint8(ht), n4(i == 0)})
 			}
 		} else {
@@ -969,7 +982,7 @@ func TestVerif_C05_Strings(t *testing.T) {
 		}
 	}
 	jobs = append(jobs, job{c05Cap, opt0, 0, 0, N})
-	for i, o := range four {
+	for i, o := range attrOpts {
 		jobs = append(jobs, job{c05Attr, o, 0, 0, n4(i == 0)})
 	}
 	for _, f := range bgpgen.Families() {
